@@ -181,6 +181,9 @@ class Repo:
         self.classes, self.funcs = {}, {}
         self._load()
         self._index()
+        self.inlined_helpers = set()
+        if os.environ.get("VERIF_NO_INLINE") != "1":
+            self._inline_new_helpers()
 
     # -- loading
     def _load(self):
@@ -261,6 +264,35 @@ class Repo:
                 self.funcs.setdefault(fi.qual, []).append(fi)
                 self._index_nested(n, rel, prefix + n.name + ".", cls, fi)
 
+    def _inline_new_helpers(self):
+        """calls from known functions to helpers that did not exist on the pinned tree are replaced by the helper's body
+        (see sa/inline.py); the helpers themselves are then skipped by package-wide scans (their code is seen in the callers)."""
+        from .inline import Inliner, load_known
+        known = load_known()
+        if known is None:
+            return
+        new = [f for lst in self.funcs.values() for f in lst if f.qual not in known]
+        if not new:
+            return
+        inl = Inliner(self, known)
+        for lst in list(self.funcs.values()):
+            for fi in list(lst):
+                if fi.qual not in known:
+                    continue
+                try:
+                    node = inl.inline_function(fi)
+                except RecursionError:
+                    continue
+                if node is not fi.node:
+                    # drop the nested functions indexed from the old node, re-index from the new one
+                    for q in [q for q in self.funcs if q.startswith(fi.qual + ".")]:
+                        self.funcs[q] = [x for x in self.funcs[q] if x.parent is not fi and not _descends(x, fi)]
+                        if not self.funcs[q]:
+                            del self.funcs[q]
+                    fi.node = node
+                    self._index_nested(node, fi.module, fi.qual + ".", fi.cls, fi)
+        self.inlined_helpers = set(inl.used)
+
     # -- lookups (anchors are qualified names, never paths or lines)
     def fn(self, qual, module=None, optional=False):
         cands = self.funcs.get(qual, [])
@@ -323,8 +355,10 @@ class Repo:
         return out
 
     def all_functions(self):
-        for lst in self.funcs.values():
+        for lst in list(self.funcs.values()):
             for f in lst:
+                if f.qual in self.inlined_helpers:
+                    continue          # a new helper whose body was spliced into its callers
                 yield f
 
     def module_tree(self, suffix):
@@ -332,6 +366,15 @@ class Repo:
         if len(c) != 1:
             raise AnalysisError(f"module {suffix!r}: {len(c)} candidates")
         return c[0], self.trees[c[0]]
+
+
+def _descends(x, fi):
+    p = x.parent
+    while p is not None:
+        if p is fi:
+            return True
+        p = p.parent
+    return False
 
 
 # ----------------------------------------------------------------------------
